@@ -120,7 +120,7 @@ def matcher(f, known):
     return None
 
 
-QUICK_N = {"C14": 960, "C15": 640, "C18": 960, "C09": 640, "C08": 640, "C05": 480, "C03": 480, "C06": 480, "C16": 480, "C17": 480}
+QUICK_N = {"C01": 640, "C02": 480, "C14": 960, "C15": 640, "C18": 960, "C09": 640, "C08": 640, "C05": 480, "C03": 480, "C06": 480, "C16": 480, "C17": 480}
 
 
 def merge(a, b):
